@@ -5,4 +5,4 @@ CHECK_DEADLOCK FALSE
 CONSTANTS
   PlanName = "uneval"
   Ds = {"d2019", "d2020"}
-  KnownDeviations = {}
+  KnownDeviations = {"ojson-member-order", "not-keeps-annotations"}
